@@ -2,7 +2,7 @@ SPECIFICATION TSpec
 CONSTANTS
  Copies <- TrCopies  Pad <- TrPad  Concat <- TrConcat
  EarlyTailError = TRUE
- MaxReinit = 5 MaxRaise = 50 Tell <- TrTell MemStop <- TrMemStop
+ MaxReinit = 5 MaxRaise = 50 MayFailMain = TRUE Tell <- TrTell MemStop <- TrMemStop
  CountCalls = TRUE
  NW <- TrNW  HdrSz <- TrHdrSz  Blocks <- TrBlocks  TailSz <- TrTailSz  TailOk <- TrTailOk  FileLen <- TrFileLen
  Chunk = 16384  Timeout <- TrTimeout  FailFast <- TrFailFast  Spurious = TRUE  MemT <- TrMemT  OutOvh <- TrOutOvh
